@@ -30,9 +30,11 @@ def run_one(args):
         m = models.pipeline_model(rep["model"], u=u, **kw)
         tight = rep.get("setting") == "tight"
         errTol = 1e-4 if tight else 1e-3
-        man, Tn = pipeline.build_manager(m, rep["tn"], M=rep.get("M", 20), N=5, errTol=errTol, tracerTol=1e-8 if tight else 1e-6)
+        man, Tn = pipeline.build_manager(m, rep["tn"], M=rep.get("M", 40 if tight else 20), N=5,     # tight: also a grid on which the discretisation error (5e-4 in vw at M = 20) is below errTol errTol=errTol, tracerTol=1e-8 if tight else 1e-6,
+                                         pressRelErrTol=0.01 if tight else 0.1)      # the pressure iteration's own tolerance moves vw by a few 1e-4 at 0.1
         hy, th = man.hydrodynamics, man.thermodynamics
         fs = m.field_scale()
+        ev["smallUnits"] = bool(Tn < 0.15)          # description of the input: units in which scipy's absolute ODE tolerance shapes the tracer's steps
         vl = float(man.wallSpeedLTE())
         ev.update(errTol=quant.ticks(errTol, 1e-7), vJ=quant.ticks(hy.vJ, 1e-7), alN=quant.ticks(hy.template.alN, 1e-7),
                   vLTE=quant.ticks(vl, 1e-7), lte="one" if vl == 1 else ("zero" if vl == 0 else "root"))
@@ -64,6 +66,6 @@ def run_one(args):
         ev["out"] = type(ex).__name__
         ev["msg"] = str(ex)[:200]
         for k, v in dict(kind="EXC", succ=False, type="-", flags=[], lte="-", vJ=0, alN=0, vLTE=0, ranges=[], errTol=0, vw=-1, Tp=0, Tm=0,
-                         widths=[], offsets=[], centres=[], phaseHigh=[0, 0], phaseLow=[0, 0], dimOK=False).items():
+                         widths=[], offsets=[], centres=[], phaseHigh=[0, 0], phaseLow=[0, 0], dimOK=False, smallUnits=False).items():
             ev.setdefault(k, v)
     return ev
